@@ -101,6 +101,17 @@ pub fn dispatch(op: &str, a: &[&str]) -> Option<Ans> {
                 ("heap", 32) => tf!(dryoc::protected::HeapByteArray<32>),
                 #[cfg(feature = "nightly")]
                 ("heap", 64) => tf!(dryoc::protected::HeapByteArray<64>),
+                // by-value conversion of an array into a heap container (`HeapByteArray::from([u8; N])`, `.into()`)
+                #[cfg(feature = "nightly")]
+                ("heapval", 16) | ("heapval", 24) | ("heapval", 32) | ("heapval", 64) => {
+                    use dryoc::protected::HeapByteArray;
+                    macro_rules! hv { ($n:literal) => {
+                        match <[u8; $n]>::try_from(p.as_slice()) {
+                            Ok(arr) => { let h: HeapByteArray<$n> = arr.into(); let h2 = HeapByteArray::<$n>::from(arr); if h.as_slice() != h2.as_slice() { "mismatch into/from".to_string() } else { ok(h.as_slice()) } }
+                            Err(_) => "err".to_string(),
+                        } }; }
+                    match n { 16 => hv!(16), 24 => hv!(24), 32 => hv!(32), _ => hv!(64) }
+                }
                 // the slice constructors of locked fixed-length containers (keys, nonces, tags held in protected memory)
                 #[cfg(feature = "nightly")]
                 ("locked", 16) | ("locked", 24) | ("locked", 32) | ("locked", 64) | ("lockedro", 16) | ("lockedro", 24) | ("lockedro", 32) | ("lockedro", 64) => {
